@@ -8,6 +8,8 @@ import SF.Lemmas.Rolling
 import SF.Lemmas.Rsi
 import SF.Lemmas.MyRsi
 import SF.Lemmas.Hln
+import SF.Lemmas.Pfe
+import SF.Lemmas.Cti
 import SF.Lemmas.Cog
 import SF.Expr
 import SF.Lemmas.Roc
@@ -225,5 +227,46 @@ theorem tanh_noPanic [Transc α] (A : View α) (hA : A.NoPanic) : (mapV Transc.t
 theorem sma_sma_noPanic (N M' : Nat) (hN : 0 < N) (hM : 0 < M') :
     (wrap (overEcho (smaCore (α := α) N)) (smaCore M')).NoPanic :=
   chain_noPanic _ _ (overEcho_noPanic _ (sma_noPanic N hN)) (sma_noPanic M' hM)
+
+section more
+variable [Transc α]
+/-- CorrelationTrendIndicator never panics, for every N ≥ 1 and every stream -/
+theorem cti_noPanic (N : Nat) (hN : 0 < N) : (ctiCore (α := α) N).NoPanic := by
+  intro ys
+  obtain ⟨q, hq, _⟩ := Core.run_invariant_init (ctiCore N) (Cti.Inv N) (by simp [Cti.Inv, ctiCore])
+    (fun s pre x h => Cti.step_ok N hN s pre x h) ys
+  refine ⟨q, hq, ?_⟩
+  cases hout : (ctiCore (α := α) N).out q with
+  | ok o => exact ⟨o, rfl⟩
+  | error e =>
+    exfalso
+    simp only [ctiCore] at hout
+    split at hout <;> simp [bind, Except.bind, pure, Except.pure] at hout
+
+/-- EhlersFisherTransform never panics, for every N ≥ 1 (N = 1 included: the emptied window falls back to the new
+value), every stream and every moving-average view that itself never panics and realises a batch function -/
+theorem fisher_noPanic (N : Nat) (hN : 0 < N) (ma : View α) (maS : List α → Option α) (hR : Eft.Realises ma maS) :
+    (eftCore N ma).NoPanic := noPanic_of_outAfter _ _ (Eft.outAfter_eq N hN ma maS hR)
+
+/-- PolarizedFractalEfficiency never panics for every window the constructor accepts (N ≥ 3; `pfe_ctor`) -/
+theorem pfe_noPanic (N : Nat) (hN : 3 ≤ N) (ma : View α) (maS : List α → Option α) (hR : Eft.Realises ma maS) :
+    (pfeCoreU N ma).NoPanic := noPanic_of_outAfter _ _ (Pfe.outAfter_eq N hN ma maS hR)
+
+/-- Add, Subtract and Multiply of panic-free children never panic; Divide does not either as long as the divisor child
+never reports an exact zero (the property's "non-zero divisor"): stated for any total combining function -/
+theorem add_noPanic (A B : View α) (hA : A.NoPanic) (hB : B.NoPanic) : (binop addF A B).NoPanic :=
+  binop_noPanic ExactScalar.finite _ (fun a b => ⟨a + b, rfl⟩) A B hA hB
+theorem sub_noPanic (A B : View α) (hA : A.NoPanic) (hB : B.NoPanic) : (binop subF A B).NoPanic :=
+  binop_noPanic ExactScalar.finite _ (fun a b => ⟨a - b, rfl⟩) A B hA hB
+theorem mul_noPanic (A B : View α) (hA : A.NoPanic) (hB : B.NoPanic) : (binop mulF A B).NoPanic :=
+  binop_noPanic ExactScalar.finite _ (fun a b => ⟨a * b, rfl⟩) A B hA hB
+/-- the debug assertion of Divide fires exactly on a zero divisor -/
+theorem div_panics_iff (a b : α) : (∃ e, divF a b = .error e) ↔ b = 0 := by
+  unfold divF
+  by_cases h : b = 0
+  · subst h; simp [throw, throwThe, MonadExceptOf.throw]
+  · have : (b == (nat 0 : α)) = false := by simpa using h
+    simp [this, h, pure, Except.pure]
+end more
 
 end SF.C15
